@@ -242,7 +242,9 @@ impl Check for C16BadFile {
         if !std::path::Path::new("/proc/self/mem").exists() {
             return CaseResult::Discard("no /proc/self/mem".into());
         }
-        let dir = crate::fifo::tmp_dir().join(format!("c16-{:016x}", hash_str(&serde_json::to_string(c).unwrap())));
+        // a directory of its own for every invocation (the same case may run in two shards at once)
+        static SEQ: std::sync::atomic::AtomicU64 = std::sync::atomic::AtomicU64::new(0);
+        let dir = crate::fifo::tmp_dir().join(format!("c16-{}-{:016x}", SEQ.fetch_add(1, std::sync::atomic::Ordering::Relaxed), hash_str(&serde_json::to_string(c).unwrap())));
         let _ = std::fs::create_dir_all(&dir);
         let mut paths = Vec::new();
         for (i, f) in c.files.iter().enumerate() {
